@@ -16,6 +16,7 @@ from ..driver import clone, seeds_for
 from ..util import digest, exc_site, short_msg
 
 PROPERTY = "C10"
+SCHED_PATH = ("sched",)
 LEVEL = "exploration"
 QUICK_N = 640
 SCENARIO_TIMEOUT = 120
